@@ -201,7 +201,7 @@ PLANS = {
                                       R("fdropfreeze", (0, 0), (1, 1), "C15", True, programs_fn=freeze_sweep("fdrop", (10, 150), (30, 45), "fdropfreeze15"))]),
     "C16": dict(mc=MC("async", thorough=["t_async"]), runs=[R("poll", (400, 8000), (4, 8), "C16", True),
                                       R("pollfreeze", (0, 0), (1, 1), "C16", True, programs_fn=freeze_sweep("poll", (14, 200), (30, 45), "pollfreeze"))]),
-    "C17": dict(mc=[dict(module="SpinMutex", cfg=("MC_SpinMutex.cfg", "MC_SpinMutex.cfg"))], l2=False,
+    "C17": dict(mc=[dict(module="SpinMutex", cfg=("MC_SpinMutex.cfg", "MC_SpinMutex.cfg"))], l2=False, tlaps="SpinMutexProof",
                 runs=[R("mutex", (200, 6000), (2, 6), None, False, rawmon=[("SpinMutexTrace", "SpinMutexTrace.cfg"), ("HBMonitor", "HBMonitor.cfg")]),
                       R("mutexfreeze", (200, 6000), (2, 4), None, False, rawmon=[("SpinMutexTrace", "SpinMutexTrace.cfg"), ("HBMonitor", "HBMonitor.cfg")])],
                 assume=["the back-off iteration counts of spin_cond are abstracted to an unbounded retry loop; a frozen lock holder is observed for a bounded number of failed attempts only"]),
@@ -485,6 +485,8 @@ def run_check(prop, tier, seed, build=True):
     if plan.get("spec_l1l0"):
         import l1l0
         stage("l1-l0", lambda: l1l0.run_stage(wd, tier, seed, stats, findings))
+    if plan.get("tlaps"):
+        stage("tlaps", lambda: run_tlaps(plan["tlaps"], wd, stats))
     if plan.get("spec_l2l1"):
         import l2l1
         stage("l2-l1", lambda: l2l1.run_stage(wd, tier, seed, stats, findings))
@@ -580,6 +582,20 @@ def run_l2_stage(prop, tier, seed, wd, stats, findings):
             os.remove(r["raw"])
         except OSError:
             pass
+
+
+def run_tlaps(module, wd, stats):
+    """machine-checked proof (TLAPS) of an unbounded invariant; every obligation must be proved"""
+    cache = os.path.join(wd, "tlacache")
+    t = time.time()
+    rc, out = vlib.sh(["timeout", "900", "tlapm", "--threads", "8", "--cleanfp", "--cache-dir", cache, module + ".tla"], cwd=vlib.SPEC)
+    m = re.search(r"All (\d+) obligations? proved", out)
+    if rc != 0 or not m:
+        raise vlib.ToolError("TLAPS proof %s not accepted:\n%s" % (module, out[-2000:]))
+    stats["mc"].append(dict(module=module, cfg="tlapm", proof_obligations_proved=int(m.group(1)), wall_s=round(time.time() - t, 1)))
+    log("TLAPS %s: all %s obligations proved, %.1fs" % (module, m.group(1), time.time() - t))
+    import shutil
+    shutil.rmtree(cache, ignore_errors=True)
 
 
 def run_mc(mc, tier, wd, stats):
